@@ -203,6 +203,27 @@ func genTables(rng *rand.Rand, nT int, o GenOpts) ([]*Table, *Table, int, bool) 
 				unique = false
 			}
 		}
+		// a column that is NULL in every row is typed NULL and most operators reject it
+		for ci := range t.Cols {
+			all := true
+			for _, r := range t.Rows {
+				if !r[ci].IsNull() {
+					all = false
+				}
+			}
+			if all {
+				n := t.Cols[ci].Name
+				switch n {
+				case "v":
+					t.Rows[0][ci] = poolVal(fl.v, rng.Intn(4))
+				case "s":
+					t.Rows[0][ci] = Str("x")
+				default:
+					j := int(n[1] - '1')
+					t.Rows[0][ci] = poolVal(fl.key[j], rng.Intn(fl.pool[j]))
+				}
+			}
+		}
 		// schema inference reads 100 rows: make sure a column that is NULL somewhere is NULL within
 		// them, and is not NULL everywhere within them
 		if len(t.Rows) > 100 {
@@ -262,7 +283,7 @@ func (g *gen) col(l *Leaf, name string) *ColRef {
 	if !ok {
 		return nil
 	}
-	return &ColRef{Alias: l.Alias, Name: name, Slot: l.Slot, Idx: ci, T: l.T.Cols[ci].T}
+	return &ColRef{Alias: l.Alias, Name: l.OutName(name), Slot: l.Slot, Idx: ci, T: l.T.Cols[ci].T}
 }
 
 // innerCol is a column reference inside the leaf's subquery (alias = Inner).
@@ -270,43 +291,6 @@ func (g *gen) innerCol(l *Leaf, name string) *ColRef {
 	ci := l.T.ColIdx(name)
 	return &ColRef{Alias: l.Inner, Name: name, Slot: l.Slot, Idx: ci, T: l.T.Cols[ci].T}
 }
-
-func (g *gen) litFor(c *ColRef) *Lit {
-	if c.T == TStr {
-		if c.Name == "s" {
-			return &Lit{V: Str([]string{"x", "y", "z", "X"}[g.rng.Intn(4)]), T: TStr}
-		}
-		return &Lit{V: Str([]string{"a", "b", "c"}[g.rng.Intn(3)]), T: TStr}
-	}
-	// a value from the pools: ints 1..4 or halves 0.5..3.5; which one is decided by the data
-	sample := Null
-	for _, r := range c.tableRows() {
-		if !r[c.Idx].IsNull() {
-			sample = r[c.Idx]
-			break
-		}
-	}
-	half := !sample.IsNull() && sample.F != float64(int64(sample.F))
-	f := float64(1 + g.rng.Intn(3))
-	if half {
-		f -= 0.5
-	}
-	if c.Name == "id" {
-		if !sample.IsNull() {
-			f = sample.F + float64(g.rng.Intn(4))
-		}
-	}
-	return &Lit{V: Num(f), T: c.T}
-}
-
-// tableRows is filled in by the generator (ColRef does not keep the table); see bind.
-var _ = sort.Strings
-
-func (c *ColRef) tableRows() []Row { return colRows[c] }
-
-// colRows maps a ColRef to its table's rows during generation only (single goroutine per gen
-// would race if shared: so it is per-gen; see newGen).
-var colRows = map[*ColRef][]Row{}
 
 func (g *gen) single(l *Leaf, inner bool) Expr {
 	get := g.col
@@ -528,6 +512,14 @@ func Gen(rng *rand.Rand, o GenOpts) *Case {
 				if l.T.Stdin {
 					bad = true
 				}
+			}
+			// the joined side is re-opened per source record (~10-40 ms each): keep the source small
+			bound := 1
+			for _, l := range Leaves(j.L) {
+				bound *= len(l.T.Rows)
+			}
+			if bound > 60 {
+				bad = true
 			}
 			if bad {
 				j.Kind = Inner
